@@ -591,6 +591,11 @@ func helperOutcomeFacts(f Fact, depth int) []Fact {
 		return nil
 	}
 	g := call.Call.StaticCallee()
+	if f.Op == 0 && f.True && idx == 0 && g != nil {
+		if fs := allOfFacts(g, call); fs != nil {
+			return fs
+		}
+	}
 	var translate func([]Fact) []Fact
 	if g == nil || helperSite[g] != call {
 		if g != nil && pureOfParams(g) {
@@ -1288,6 +1293,214 @@ func jointEnumFacts(base []Fact, depth int) []Fact {
 		if okAll {
 			out = append(out, common...)
 		}
+	}
+	return out
+}
+
+// synthLen stands for len(arg) where the program has no such instruction at hand (the length of an
+// argument packed into a variadic call, tested inside the callee's loop).  lenOperand reads it.
+type synthLen struct{ arg ssa.Value }
+
+func (s *synthLen) Name() string                  { return "len(" + s.arg.Name() + ")" }
+func (s *synthLen) String() string                { return "len(" + s.arg.String() + ")" }
+func (s *synthLen) Type() types.Type              { return types.Typ[types.Int] }
+func (s *synthLen) Parent() *ssa.Function         { return s.arg.Parent() }
+func (s *synthLen) Referrers() *[]ssa.Instruction { return nil }
+func (s *synthLen) Pos() token.Pos                { return s.arg.Pos() }
+
+// allOfFacts: the "every one of them" predicate over a variadic parameter,
+//
+//	func all(n int, vs ...[]T) bool { for _, v := range vs { if len(v) < n { return false } }; return true }
+//
+// When a call of it returns true, the negated test holds for each argument packed at that call — stated
+// in the caller's frame.  The shape is checked exactly (a range loop over the variadic parameter whose
+// body is one comparison that returns false, nothing else in the function), otherwise nil.
+func allOfFacts(g *ssa.Function, call *ssa.Call) []Fact {
+	if g == nil || !g.Signature.Variadic() || len(g.Blocks) != 5 || len(g.FreeVars) != 0 || len(call.Call.Args) != len(g.Params) || len(g.Params) == 0 {
+		return nil
+	}
+	vs := g.Params[len(g.Params)-1]
+	entry, H := g.Blocks[0], g.Blocks[1]
+	// the two returns
+	var rT, rF *ssa.Return
+	for _, in := range instrsOf(g) {
+		r, ok := in.(*ssa.Return)
+		if !ok {
+			continue
+		}
+		if len(r.Results) != 1 {
+			return nil
+		}
+		k, isK := r.Results[0].(*ssa.Const)
+		if !isK || k.Value == nil || k.Value.Kind() != constant.Bool {
+			return nil
+		}
+		if constant.BoolVal(k.Value) {
+			if rT != nil {
+				return nil
+			}
+			rT = r
+		} else {
+			if rF != nil {
+				return nil
+			}
+			rF = r
+		}
+	}
+	if rT == nil || rF == nil || len(rF.Block().Preds) != 1 || len(rT.Block().Preds) != 1 || rT.Block().Preds[0] != H {
+		return nil
+	}
+	B := rF.Block().Preds[0]
+	if len(B.Preds) != 1 || B.Preds[0] != H || len(H.Preds) != 2 || len(entry.Succs) != 1 || entry.Succs[0] != H {
+		return nil
+	}
+	bIf, ok := B.Instrs[len(B.Instrs)-1].(*ssa.If)
+	if !ok || len(B.Succs) != 2 {
+		return nil
+	}
+	var arm bool // the arm of the test that returns false
+	switch {
+	case B.Succs[0] == rF.Block() && B.Succs[1] == H:
+		arm = true
+	case B.Succs[1] == rF.Block() && B.Succs[0] == H:
+		arm = false
+	default:
+		return nil
+	}
+	hIf, ok := H.Instrs[len(H.Instrs)-1].(*ssa.If)
+	if !ok || len(H.Succs) != 2 || H.Succs[0] != B || H.Succs[1] != rT.Block() {
+		return nil
+	}
+	// the loop: i = φ(-1, i+1); i+1 < len(vs)
+	lt, ok := hIf.Cond.(*ssa.BinOp)
+	if !ok || lt.Op != token.LSS {
+		return nil
+	}
+	inc, ok := lt.X.(*ssa.BinOp)
+	if !ok || inc.Op != token.ADD || inc.Block() != H {
+		return nil
+	}
+	phi, ok := inc.X.(*ssa.Phi)
+	if one, isK := constInt(inc.Y); !ok || !isK || one != 1 || phi.Block() != H || len(phi.Edges) != 2 {
+		return nil
+	}
+	for i, e := range phi.Edges {
+		if H.Preds[i] == entry {
+			if k, isK := constInt(e); !isK || k != -1 {
+				return nil
+			}
+		} else if e != ssa.Value(inc) {
+			return nil
+		}
+	}
+	if lx, isLen := lenOperand(lt.Y); !isLen || lx != ssa.Value(vs) {
+		return nil
+	}
+	// the body: v = vs[i+1]; one comparison of v / len(v) with parameters and constants
+	var elem *ssa.UnOp
+	for _, in := range B.Instrs {
+		switch x := in.(type) {
+		case *ssa.IndexAddr:
+			if x.X != ssa.Value(vs) || x.Index != ssa.Value(inc) {
+				return nil
+			}
+		case *ssa.UnOp:
+			ia, isIA := x.X.(*ssa.IndexAddr)
+			if x.Op != token.MUL || !isIA || ia.X != ssa.Value(vs) || elem != nil {
+				return nil
+			}
+			elem = x
+		case *ssa.Call:
+			if b, isB := x.Call.Value.(*ssa.Builtin); !isB || b.Name() != "len" {
+				return nil
+			}
+		case *ssa.BinOp, *ssa.If, *ssa.DebugRef:
+		default:
+			return nil
+		}
+	}
+	for _, in := range append(append([]ssa.Instruction(nil), entry.Instrs...), H.Instrs...) {
+		switch x := in.(type) {
+		case *ssa.Call:
+			if b, isB := x.Call.Value.(*ssa.Builtin); !isB || b.Name() != "len" {
+				return nil
+			}
+		case *ssa.BinOp, *ssa.If, *ssa.Phi, *ssa.Jump, *ssa.DebugRef:
+		default:
+			return nil
+		}
+	}
+	if elem == nil {
+		return nil
+	}
+	// the arguments packed at this call
+	sl, ok := call.Call.Args[len(call.Call.Args)-1].(*ssa.Slice)
+	if !ok || sl.Low != nil || sl.High != nil {
+		return nil
+	}
+	arr, ok := sl.X.(*ssa.Alloc)
+	if !ok || arr.Referrers() == nil {
+		return nil
+	}
+	at, ok := arr.Type().Underlying().(*types.Pointer).Elem().Underlying().(*types.Array)
+	if !ok {
+		return nil
+	}
+	packed := make([]ssa.Value, at.Len())
+	for _, r := range *arr.Referrers() {
+		switch x := r.(type) {
+		case *ssa.Slice:
+			if x != sl {
+				return nil
+			}
+		case *ssa.IndexAddr:
+			k, isK := constInt(x.Index)
+			if !isK || k < 0 || k >= at.Len() || x.Referrers() == nil || len(*x.Referrers()) != 1 || packed[k] != nil {
+				return nil
+			}
+			st, isSt := (*x.Referrers())[0].(*ssa.Store)
+			if !isSt || st.Addr != ssa.Value(x) || !instrDominates(st, call) {
+				return nil
+			}
+			packed[k] = st.Val
+		case *ssa.DebugRef:
+		default:
+			return nil
+		}
+	}
+	for _, e := range packed {
+		if e == nil {
+			return nil
+		}
+	}
+	f0 := factOf(Guard{If: bIf, Arm: !arm})
+	if f0.Op == 0 {
+		return nil
+	}
+	var out []Fact
+	for _, e := range packed {
+		tr := func(v ssa.Value) ssa.Value {
+			if v == ssa.Value(elem) {
+				return e
+			}
+			if lx, isLen := lenOperand(v); isLen && lx == ssa.Value(elem) {
+				return &synthLen{arg: e}
+			}
+			switch x := v.(type) {
+			case *ssa.Const:
+				return x
+			case *ssa.Parameter:
+				if i := paramIndex(x); x != vs && x.Parent() == g && i >= 0 && i < len(call.Call.Args) {
+					return call.Call.Args[i]
+				}
+			}
+			return nil
+		}
+		x, y := tr(f0.X), tr(f0.Y)
+		if x == nil || y == nil {
+			return nil
+		}
+		out = append(out, Fact{Op: f0.Op, X: x, Y: y, If: bIf})
 	}
 	return out
 }
